@@ -351,12 +351,25 @@ class Engine:
                 out.update(cs.fields)
         return out
 
-    def class_invariants(self, ctx: Ctx, obj: Obj, cls: Optional[ClassInfo] = None) -> List[Tuple[str, Any]]:
+    def class_invariants(self, ctx: Ctx, obj: Obj, cls: Optional[ClassInfo] = None, partial: bool = False) -> List[Tuple[str, Any]]:
         out = []
         for c in (cls or obj.cls).mro():
             cs = self.reg.classes.get(c.qualname)
             if cs and cs.invariant:
-                r = self.run_spec(ctx, cs.invariant, obj)
+                if partial and cs.whole_object:
+                    # object of a subclass still under construction: whole-object clauses are not yet meaningful
+                    old = speclib.CTX
+                    speclib.CTX = ctx
+                    ctx.spec_mode += 1
+                    try:
+                        r = cs.invariant(obj, skip=set(cs.whole_object)) if _accepts_skip(cs.invariant) else None
+                    finally:
+                        ctx.spec_mode -= 1
+                        speclib.CTX = old
+                    if r is None:
+                        raise EngineLimit("invariant of %s has whole-object clauses but does not accept skip=" % c.name)
+                else:
+                    r = self.run_spec(ctx, cs.invariant, obj)
                 if isinstance(r, dict):
                     out.extend(("%s.%s" % (c.name, k), v) for k, v in r.items())
                 else:
@@ -738,6 +751,24 @@ class Engine:
             for k_, a_ in enumerate(ctx.axioms):
                 out.append(("class-invariant:%s/aux%d" % (cls.name, k_), "definition of a canonical filtered / mapped "
                             "sequence used by the invariant", a_))
+        # closed world for object-valued fields of abstract objects: the dynamic class of the field value is one of the
+        # repository's subclasses of the declared class
+        for q, cs in self.reg.classes.items():
+            if q not in self.repo.classes:
+                continue
+            cls = self.repo.classes[q]
+            for fname, kind in cs.fields.items():
+                if isinstance(kind, V.ObjOf):
+                    try:
+                        fcls = self.repo.cls(kind.clsname)
+                    except KeyError:
+                        continue
+                    f = self.uf("fld!%s!%s" % (cls.name, fname), V.RefSort, V.RefSort)
+                    guard = z3.Or(*[self.tag_fn(r) == self.class_id(c) for c in cls.all_subclasses()])
+                    rng = z3.Or(*[self.tag_fn(f(r)) == self.class_id(c) for c in fcls.all_subclasses()])
+                    out.append(("closed-world:%s.%s" % (cls.name, fname),
+                                "closed world: the dynamic class of an object-valued field is a repository subclass of its "
+                                "declared class", z3.ForAll([r], z3.Implies(guard, rng), patterns=[f(r)])))
         return out
 
     def kind_from_annotation(self, finfo: FuncInfo, ann):
@@ -1720,7 +1751,8 @@ class Engine:
         for label, c in self.run_spec(ctx, lambda: contract.clauses("post", ns)):
             ctx.assume(lift_bool(c))
         if is_init:
-            for label, inv in self.class_invariants(ctx, ns.self, finfo.cls):
+            partial = isinstance(ns.self, Obj) and ns.self.cls is not finfo.cls
+            for label, inv in self.class_invariants(ctx, ns.self, finfo.cls, partial=partial):
                 ctx.assume(lift_bool(inv))
         return result
 
@@ -1911,6 +1943,15 @@ def _uf_apps_on(body, r):
 
     walk(body)
     return out
+
+
+def _accepts_skip(fn) -> bool:
+    import inspect
+
+    try:
+        return "skip" in inspect.signature(fn).parameters
+    except (TypeError, ValueError):
+        return False
 
 
 def contract_cls(engine, contract, cls):
